@@ -70,20 +70,17 @@ theorem decide_of_not_stale {m : Entry} {now : Int} {force : Nat} (skip : Bool)
   simp only [h]
   rfl
 
-/-- revalidation due: the stale copy when the caller asked for it (and no force_revalidate),
-    else "revalidate" -/
+/-- revalidation due: the stale copy when the caller asked for it, else "revalidate" -/
 theorem decide_of_stale {m : Entry} {now : Int} {force : Nat} (skip : Bool)
     (inm ims : Bytes) (suffix : Option Bytes) (h : shouldRevalidate m now force = true) :
     Freshness.decide m now force skip inm ims suffix =
-      if force = 0 ∧ skip = true then .ok (.staleServe (ageOf m now).1)
+      if skip = true then .ok (.staleServe (ageOf m now).1)
       else .ok (.revalidate
         ((getCacheControlDirectives m.header).canStaleWhileRevalidate (ageOf m now).1)
         (ageOf m now).1) := by
   unfold Freshness.decide
   simp only [h]
-  by_cases hf : force = 0
-  · cases skip <;> simp [hf]
-  · cases skip <;> simp [hf]
+  cases skip <;> simp
 
 /-- `get` when no revalidation is due: the lock plays no part -/
 theorem get_of_not_stale {m : Entry} {now : Int} {force : Nat} (lock skip : Bool)
@@ -103,7 +100,7 @@ theorem get_of_not_stale {m : Entry} {now : Int} {force : Nat} (lock skip : Bool
 theorem get_of_stale {m : Entry} {now : Int} {force : Nat} (lock skip : Bool)
     (inm ims : Bytes) (suffix : Option Bytes) (h : shouldRevalidate m now force = true) :
     get lock m now force skip inm ims suffix =
-      if force = 0 ∧ skip = true then .ok (.foundStale (ageOf m now).1)
+      if skip = true then .ok (.foundStale (ageOf m now).1)
       else if lock = true then
         if (getCacheControlDirectives m.header).canStaleWhileRevalidate (ageOf m now).1 = true then
           match Freshness.decide m now 0 true inm ims suffix with
@@ -116,7 +113,7 @@ theorem get_of_stale {m : Entry} {now : Int} {force : Nat} (lock skip : Bool)
       else .ok (.revalidatingWriter (ageOf m now).1) := by
   unfold get
   rw [decide_of_stale skip inm ims suffix h]
-  by_cases hc : force = 0 ∧ skip = true
+  by_cases hc : skip = true
   · rw [if_pos hc, if_pos hc]
   · rw [if_neg hc, if_neg hc]
     cases lock <;>
